@@ -119,3 +119,149 @@ Section JsonOrder.
     - rewrite Hout. rewrite (no_prints_no_core evs Ex) in Hcore. destruct body; [reflexivity|discriminate].
   Qed.
 End JsonOrder.
+
+(* ------------------------------------------------------------------ the exact messages, and reading them back *)
+From RG Require Import Spec.PrinterSpec Spec.ParseSpec Proofs.PrinterProofs Proofs.ParseProofs.
+
+Section JsonExact.
+  Variable find_at : bytes -> nat -> option (nat * nat).
+  Variable env : senv.
+
+  (* the submatch spans of a delivered event (relative to its bytes) *)
+  Definition spans_in (buf : bytes) (rs re : nat) : list (nat * nat) :=
+    match successive find_at env buf rs re with Some l => submatches_of buf rs re l | None => [] end.
+  Definition ev_spans (e : sevent) : list (nat * nat) :=
+    match e with
+    | SMatched m => spans_in (m_buf m) (m_rs m) (m_re m)
+    | SContext c => if e_invert env then spans_in (c_bytes c) 0 (length (c_bytes c)) else []
+    | _ => []
+    end.
+  Definition ev_msg (p : option jdata) (e : sevent) : option jmsg :=
+    match e with
+    | SMatched m => Some (JMatch p (data_from_bytes (m_bytes m)) (m_lnum m) (m_off m)
+                                 (submatches_new (m_bytes m) (ev_spans e)))
+    | SContext c => Some (JContext p (data_from_bytes (c_bytes c)) (c_lnum c) (c_off c)
+                                   (submatches_new (c_bytes c) (ev_spans e)))
+    | _ => None
+    end.
+  (* what a reader should get back from the message of an event *)
+  Definition ev_bytes (e : sevent) : bytes :=
+    match e with SMatched m => m_bytes m | SContext c => c_bytes c | _ => [] end.
+  Definition ev_fields (e : sevent) : option (bool * bytes * option nat * nat * list (nat * nat * bytes)) :=
+    let subs := map (fun m => (fst m, snd m, sub (ev_bytes e) (fst m) (snd m))) (ev_spans e) in
+    match e with
+    | SMatched m => Some (true, m_bytes m, m_lnum m, m_off m, subs)
+    | SContext c => Some (false, c_bytes c, c_lnum c, c_off c, subs)
+    | _ => None
+    end.
+
+  Variable cfg : jconfig.
+  Hypothesis Hmax : j_max cfg = None.
+
+  Lemma wbm_facts s :
+    js_begin_printed (write_begin_message s) = true /\ js_path (write_begin_message s) = js_path s /\
+    js_out (write_begin_message s) = js_out s ++ (if negb (js_begin_printed s) then [JBegin (jpath s)] else []).
+  Proof.
+    unfold write_begin_message. destruct (js_begin_printed s) eqn:E; cbn; [now rewrite app_nil_r|auto].
+  Qed.
+
+  Lemma json_feed_exact : forall evs k s, Forall (ev_ok find_at env) evs ->
+    exists s', feed (json_step find_at cfg env) evs k s = Some (s', Go, k + length evs) /\
+      js_out s' = js_out s ++ (if negb (js_begin_printed s) && existsb prints evs then [JBegin (jpath s)] else [])
+                           ++ filter_map (ev_msg (jpath s)) evs /\
+      js_begin_printed s' = js_begin_printed s || existsb prints evs /\
+      js_path s' = js_path s.
+  Proof.
+    induction evs as [|e evs IH]; intros k s Hok.
+    - exists s. cbn [feed length existsb filter_map]. rewrite Nat.add_0_r, andb_false_r, orb_false_r, !app_nil_r.
+      repeat split; reflexivity.
+    - inversion Hok as [|? ? He Hrest]; subst. cbn [feed].
+      destruct e as [m|c| |off]; cbn [json_step].
+      + destruct He as [Hokm Hb]. unfold json_matched.
+        destruct (json_record_matches_total find_at env (m_buf m) (m_rs m) (m_re m) Hokm Hb) as (l & Hl & ->).
+        unfold js_should_quit. rewrite Hmax. cbn [negb reply_of].
+        edestruct (IH (S k)) as (s' & -> & Hout & Hbp & Hpath); [exact Hrest|].
+        cbn [js_out js_begin_printed js_path] in Hout, Hbp, Hpath.
+        destruct (wbm_facts s) as (Ebp & Epath & Eout).
+        rewrite Ebp in Hout, Hbp. cbn [negb andb app orb] in Hout, Hbp.
+        unfold jpath in Hout at 1 2. cbn [js_path] in Hout. rewrite Epath in Hout. fold (jpath s) in Hout.
+        exists s'. split; [do 2 f_equal; cbn [length]; lia|].
+        cbn [existsb prints ev_core orb filter_map ev_msg ev_spans]. rewrite andb_true_r, orb_true_r.
+        unfold spans_in. rewrite Hl.
+        split; [rewrite Hout, Eout, <- !app_assoc; reflexivity|]. split; [exact Hbp|congruence].
+      + unfold json_context.
+        assert ((if e_invert env then json_record_matches find_at env (c_bytes c) 0 (length (c_bytes c)) else Some [])
+                = Some (ev_spans (SContext c))) as ->.
+        { cbn [ev_spans]. destruct (e_invert env); [|reflexivity].
+          destruct (json_record_matches_total find_at env (c_bytes c) 0 (length (c_bytes c)) He (le_n _)) as (l & Hl & ->).
+          unfold spans_in. now rewrite Hl. }
+        unfold js_should_quit. rewrite Hmax. cbn [negb reply_of].
+        edestruct (IH (S k)) as (s' & -> & Hout & Hbp & Hpath); [exact Hrest|].
+        cbn [js_out js_begin_printed js_path] in Hout, Hbp, Hpath.
+        destruct (wbm_facts s) as (Ebp & Epath & Eout).
+        rewrite Ebp in Hout, Hbp. cbn [negb andb app orb] in Hout, Hbp.
+        unfold jpath in Hout at 1 2. cbn [js_path] in Hout. rewrite Epath in Hout. fold (jpath s) in Hout.
+        exists s'. split; [do 2 f_equal; cbn [length]; lia|].
+        cbn [existsb prints ev_core orb filter_map ev_msg]. rewrite andb_true_r, orb_true_r.
+        split; [rewrite Hout, Eout, <- !app_assoc; reflexivity|]. split; [exact Hbp|congruence].
+      + destruct (IH (S k) s Hrest) as (s' & -> & H). exists s'.
+        split; [do 2 f_equal; cbn [length]; lia|]. cbn [existsb prints ev_core orb filter_map ev_msg]. exact H.
+      + destruct (IH (S k) s Hrest) as (s' & -> & H). exists s'.
+        split; [do 2 f_equal; cbn [length]; lia|]. cbn [existsb prints ev_core orb filter_map ev_msg]. exact H.
+  Qed.
+
+  (* reading one message back *)
+  Lemma msg_roundtrip p e msg : Forall (fun x => (x < 256)%N) (ev_bytes e) ->
+    ev_msg p e = Some msg -> msg_decode msg = ev_fields e.
+  Proof.
+    intros Hb Hm. destruct e as [m|c| |off]; cbn [ev_msg] in Hm; try discriminate; injection Hm as <-;
+      cbn [msg_decode ev_fields ev_bytes] in *;
+      rewrite data_roundtrip_proof by assumption; rewrite subs_roundtrip by assumption; reflexivity.
+  Qed.
+
+  Lemma body_roundtrip p : forall evs, Forall (fun e => Forall (fun x => (x < 256)%N) (ev_bytes e)) evs ->
+    map msg_decode (filter_map (ev_msg p) evs) = map Some (filter_map ev_fields evs).
+  Proof.
+    induction evs as [|e evs IH]; intro H; [reflexivity|]. inversion H as [|? ? He Hr]; subst.
+    cbn [filter_map]. destruct (ev_msg p e) as [msg|] eqn:Em.
+    - cbn [map]. rewrite (msg_roundtrip p e msg He Em).
+      destruct (ev_fields e) as [f|] eqn:Ef.
+      + cbn [map]. f_equal. now apply IH.
+      + destruct e; cbn in Em, Ef; discriminate.
+    - destruct (ev_fields e) eqn:Ef; [destruct e; cbn in Em, Ef; discriminate|]. now apply IH.
+  Qed.
+
+  (* a whole search: the output is begin, the messages of the delivered events, end — and a reader
+     recovers from every message the event's bytes, line number, absolute offset and submatches
+     (offsets and texts), whether Data was written as text or as base64 *)
+  Theorem json_roundtrip_proof path evs fins :
+    j_always_begin_end cfg = false -> Forall (ev_ok find_at env) evs ->
+    Forall (fun e => Forall (fun x => (x < 256)%N) (ev_bytes e)) evs ->
+    exists s body, json_run find_at cfg env path evs fins = Some (s, true) /\
+      js_out s = (if existsb prints evs
+                  then JBegin (option_map data_from_bytes path) :: body
+                       ++ [JEnd (option_map data_from_bytes path) (f_bin (fins (1 + length evs))) (js_stats s)]
+                  else []) /\
+      map msg_decode body = map Some (filter_map ev_fields evs) /\
+      length body = length (filter prints evs).
+  Proof.
+    intros Hab Hok Hbytes. unfold json_run, run_sink, json_begin. rewrite Hmax, Hab. cbn [negb].
+    cbn [json_sink js_path js_begin_printed js_stats js_matches js_out].
+    destruct (json_feed_exact evs 0 (mkJS path 0 0 None false stats_new [] []) Hok)
+      as (s' & -> & Hout & Hbp & Hpath).
+    cbn [js_out js_begin_printed js_path negb andb orb app Nat.add] in Hout, Hbp, Hpath.
+    unfold jpath in Hout. cbn [js_path] in Hout.
+    exists (json_finish (fins (1 + (0 + length evs))) s'), (filter_map (ev_msg (option_map data_from_bytes path)) evs).
+    split; [reflexivity|]. split; [|split].
+    - unfold json_finish. rewrite Hbp. destruct (existsb prints evs) eqn:Ex; cbn [negb].
+      + cbn [js_out js_stats]. rewrite Hout. unfold jpath. rewrite Hpath. cbn [app Nat.add]. reflexivity.
+      + rewrite Hout. cbn [app].
+        assert (filter_map (ev_msg (option_map data_from_bytes path)) evs = []) as ->; [|reflexivity].
+        clear - Ex. induction evs as [|e r IH]; [reflexivity|]. cbn [existsb] in Ex.
+        apply orb_false_iff in Ex as [E1 E2]. cbn [filter_map].
+        destruct e; cbn in E1; try discriminate; cbn [ev_msg]; now apply IH.
+    - now apply body_roundtrip.
+    - clear. induction evs as [|e r IH]; [reflexivity|]. cbn [filter_map filter].
+      destruct e; cbn [ev_msg prints ev_core]; cbn [length]; now rewrite ?IH.
+  Qed.
+End JsonExact.
